@@ -190,6 +190,19 @@ fn cases_list(tier: Tier) -> Vec<Value> {
             v.push(json!({"kind": "fault", "fault": fault, "target": target}));
         }
     }
+    // a directory of n files in which some declare another package: every single position, every adjacent pair, none
+    for place in ["lib", "root"] {
+        for n in 2..=6u64 {
+            let first = if place == "root" { 1 } else { 0 };
+            v.push(json!({"kind": "stray-file", "where": place, "n": n, "stray": []}));
+            for i in first..n {
+                v.push(json!({"kind": "stray-file", "where": place, "n": n, "stray": [i]}));
+                if i + 1 < n {
+                    v.push(json!({"kind": "stray-file", "where": place, "n": n, "stray": [i, i + 1]}));
+                }
+            }
+        }
+    }
     // references to packages that are not directly imported: chain Main->A->B, C unrelated
     for from in 0..3 {
         for to in 0..4 {
@@ -223,7 +236,7 @@ impl Family for Isolation {
         &["C16", "C04", "C13"]
     }
     fn rule(&self) -> &'static str {
-        "all import graphs on {Main,A,B,C} with <= 4 edges (quick) / all 4096 (thorough) incl. cycles and self-reachable shapes: accepted iff the subgraph reachable from Main is acyclic, and then the program prints the value the graph denotes; 9 existence/naming faults (missing directory, misnamed package declaration, empty directory) on a diamond; 216 qualified references from each package of a chain to each package in 18 syntactic positions (fn call, parameter / result / generic-argument / tuple / function type, let and closure-parameter annotation, struct field, enum payload, struct literal and pattern, impl header, trait bound, trait path call, dyn type, variant): accepted iff the target is the package itself or a direct import; 16 impl placements (subsets of {A, B, C, Main}) x 9 implementing types {B::S, B::G[int32], int32, string, bool, Vec[int32], Ref[int32], (int32, bool), [int32; 2]} for a trait in A: accepted iff every impl is in the trait's package or (for B's own types) the type's package and at most one exists (builtin types have no home package). the reference and impl-placement configurations also with the packages named so that each name is a proper prefix of another's ({Geo, Geometry, G} and {Geometry, Geo, Geomet} for {A, B, C}); verdict = pure reference function of the configuration. non-trivial = configurations that must be rejected; distinct = distinct configuration"
+        "all import graphs on {Main,A,B,C} with <= 4 edges (quick) / all 4096 (thorough) incl. cycles and self-reachable shapes: accepted iff the subgraph reachable from Main is acyclic, and then the program prints the value the graph denotes; 9 existence/naming faults (missing directory, misnamed package declaration, empty directory) on a diamond; a directory (a library's, the root) of 2-6 files in which one file at every position / two neighbouring files / none declare another package: accepted iff none; 216 qualified references from each package of a chain to each package in 18 syntactic positions (fn call, parameter / result / generic-argument / tuple / function type, let and closure-parameter annotation, struct field, enum payload, struct literal and pattern, impl header, trait bound, trait path call, dyn type, variant): accepted iff the target is the package itself or a direct import; 16 impl placements (subsets of {A, B, C, Main}) x 9 implementing types {B::S, B::G[int32], int32, string, bool, Vec[int32], Ref[int32], (int32, bool), [int32; 2]} for a trait in A: accepted iff every impl is in the trait's package or (for B's own types) the type's package and at most one exists (builtin types have no home package). the reference and impl-placement configurations also with the packages named so that each name is a proper prefix of another's ({Geo, Geometry, G} and {Geometry, Geo, Geomet} for {A, B, C}); verdict = pure reference function of the configuration. non-trivial = configurations that must be rejected; distinct = distinct configuration"
     }
     fn cases(&self, tier: Tier) -> Box<dyn Iterator<Item = Value> + '_> {
         Box::new(cases_list(tier).into_iter())
@@ -276,6 +289,32 @@ impl Family for Isolation {
                     _ => "",
                 };
                 site = format!("fault={};target={}", fault, PK[target]);
+            }
+            "stray-file" => {
+                let place = case["where"].as_str().unwrap();
+                let n = case["n"].as_u64().unwrap() as usize;
+                let stray: Vec<usize> = case["stray"].as_array().unwrap().iter().map(|x| x.as_u64().unwrap() as usize).collect();
+                let (n_lib, n_root) = if place == "lib" { (n, 1) } else { (1, n) };
+                let mut sum = 0usize;
+                let mut terms: Vec<String> = Vec::new();
+                for k in 0..n_lib {
+                    let pkg = if place == "lib" && stray.contains(&k) { "Zed" } else { "A" };
+                    files.push((format!("A/a{}.gom", k), format!("package {}\n\nfn f{}() -> int32 {{ {} }}\n", pkg, k, k + 1)));
+                    terms.push(format!("A::f{}()", k));
+                    sum += k + 1;
+                }
+                for k in 1..n_root {
+                    let pkg = if place == "root" && stray.contains(&k) { "Zed" } else { "Main" };
+                    files.push((format!("s{}.gom", k), format!("package {}\n\nfn m{}() -> int32 {{ {} }}\n", pkg, k, 10 * k)));
+                    terms.push(format!("m{}()", k));
+                    sum += 10 * k;
+                }
+                files.insert(0, ("main.gom".to_string(), format!("package Main\nimport A\n\nfn main() {{\n    string_println(int32_to_string({}))\n}}\n", terms.join(" + "))));
+                expect_accept = stray.is_empty();
+                if stray.is_empty() {
+                    expect_out = Some(format!("{}\n", sum));
+                }
+                site = format!("stray-file;where={};files={};stray={:?}", place, n, stray);
             }
             "reference" => {
                 let edges = vec![(0, 1), (1, 2)];
